@@ -91,6 +91,54 @@ def rule_fresh(chk, rel, cls, fn):
                detail_bad='evaluator not created before use', detail_ok='created first')
 
 
+def rule_lazy_geometry(chk, rel, cls, fn, base):
+    """the zone geometry (length, normal, origin) is filled in lazily by initialize() on the first update: nothing in update() may read an attribute that initialize() sets at a
+    point from which the initialize() call is still to come - the first update would recycle / classify with the constructor's zeros"""
+    who = '%s.%s' % (cls.name, fn.name)
+    fam = rel.split('/')[-2]
+    init = M.methods(cls).get('initialize') or M.methods(base).get('initialize')
+    if init is None:
+        raise AnalysisError('%s: initialize() vanished' % cls.name)
+    written = set()
+    for a in ast.walk(init):
+        tg = []
+        if isinstance(a, ast.Assign):
+            tg = a.targets
+        elif isinstance(a, (ast.AugAssign, ast.AnnAssign)):
+            tg = [a.target]
+        for t_ in tg:
+            for x in ast.walk(t_):
+                if isinstance(x, ast.Attribute) and isinstance(x.value, ast.Name) and x.value.id == 'self' and isinstance(x.ctx, ast.Store):
+                    written.add(x.attr)
+    g = C.build_cfg(fn)
+
+    def head(n):
+        a = n.ast
+        if n.kind == 'test':
+            return a.test
+        if n.kind == 'loop':
+            return a.iter if isinstance(a, ast.For) else a.test
+        return a if isinstance(a, (ast.Assign, ast.AugAssign, ast.AnnAssign, ast.Expr, ast.Return)) else None
+    calls = [n.id for n in g.nodes if n.ast is not None and head(n) is not None and any(M.call_name(c) == 'self.initialize' for c in M.calls(head(n)))]
+    if not calls:
+        chk.violated('inlet-move' if 'Inlet' in base.name else 'outlet-move', '%s:%s:geometry-initialised' % (fam, who), node=fn, file=rel, func=who,
+                     detail='update() never calls self.initialize(): the zone length and normal stay at the constructor\'s zeros')
+        return
+    stale = []
+    for n in g.nodes:
+        h = head(n) if n.ast is not None else None
+        if h is None or n.id in calls:
+            continue
+        rd = sorted(set(x.attr for x in ast.walk(h) if isinstance(x, ast.Attribute) and isinstance(x.value, ast.Name) and x.value.id == 'self'
+                        and isinstance(x.ctx, ast.Load) and x.attr in written))
+        if rd and any(c in g.reachable(n.id) for c in calls):
+            stale.append((getattr(h, 'lineno', 0), rd))
+    chk.decide(not stale, 'inlet-move' if 'Inlet' in base.name else 'outlet-move', '%s:%s:geometry-read-after-lazy-initialise' % (fam, who), node=fn, file=rel, func=who,
+               detail_bad='%s read(s) what initialize() sets (%s) at a point from which the lazy self.initialize() call is still to come: on the first update the value is the '
+                          'constructor\'s 0.0, so the recycled particles are not moved / the zones are classified with a zero length' % (stale, sorted(written)),
+               detail_ok='every read of %s comes after the lazy initialize()' % sorted(written))
+
+
 def rule_inlet(chk, rel, cls, fn):
     who = '%s.%s' % (cls.name, fn.name)
     fam = rel.split('/')[-2]
@@ -417,6 +465,7 @@ def rule_families(chk, ci):
                     # an overriding update is held to the same move rules
                     rule_fresh(chk, r2, c, up)
                     (rule_inlet if kind == 'inlet' else rule_outlet)(chk, r2, c, up)
+                    rule_lazy_geometry(chk, r2, c, up, M.find_class(t, base))
     chk.floor('family inlet/outlet classes', n, 10)
 
 
@@ -687,6 +736,7 @@ def main(chk):
         up = upd_of(cls)
         rule_fresh(chk, IOM, cls, up)
         rule(chk, IOM, cls, up)
+        rule_lazy_geometry(chk, IOM, cls, up, cls)
         g = C.build_cfg(up)
         from verif_static import paths as PT
         acting = [p_ for p_ in PT.enumerate_paths(M.docstring_stripped(up.body)) if any(cal in ('self.io_eval.update', 'self.io_eval.evaluate') or cal.endswith('.extract_particles')
@@ -701,6 +751,13 @@ def main(chk):
     rule_zone_length(chk)
     rule_dx_everywhere(chk)
     rule_activation(chk)
+    # shared with C06: extracted particles are written behind *all* particles the destination already holds (the fluid carries ghost / remote particles behind its real ones)
+    import importlib.util
+    import os
+    spec6 = importlib.util.spec_from_file_location('c06mod', os.path.join(os.path.dirname(os.path.abspath(__file__)), 'c06.py'))
+    c06 = importlib.util.module_from_spec(spec6)
+    spec6.loader.exec_module(c06)
+    c06.rule_append_offsets(chk, M.find_class(M.cy(PA), 'ParticleArray'))
     chk.assume('exactly-once over arbitrary runs and velocity fields (particles crossing and returning within a step) is not decided')
     chk.assume('ParticleArray.extract_particles / remove_particles copy and delete whole particles (C06)')
 
